@@ -8,7 +8,7 @@
 From Verif Require Import Base.Prelude Model.Tree Model.Spec Model.VM Model.Writer Gen.RunnerGen
   Proofs.SpecProofs Proofs.SpecBoundsProofs Proofs.MaskProofs
   Proofs.VMU Proofs.VMUOps Proofs.VMUOps2 Proofs.VMUOps6 Proofs.VMUOps3 Proofs.CompileBase
-  Proofs.CompileDefs Proofs.CompileStage1 Proofs.CompileLoop Proofs.CompileCharLoop Proofs.CompileMulti.
+  Proofs.CompileDefs Proofs.CompileStage1 Proofs.CompileLoop Proofs.CompileCharLoop Proofs.CompileMulti Proofs.CompileStage4.
 From Coq Require Import Relations ZifyBool.
 
 Section CC.
@@ -49,6 +49,9 @@ Proof.
     + cbn [supported] in Hs. apply andb_prop in Hs. destruct Hs as [Hu Hs]. apply Z.eqb_eq in Hu. subst u.
       destruct Hg as [Hg0 Hg]. apply cc_capture; [exact tc_nonneg|apply IH'; assumption|exact Hs|exact Hg0].
     + apply cc_group. apply IH'; [exact Hs|]. destruct Hg as [_ Hg]. exact Hg.
+    + apply cc_poslook; [exact tc_nonneg|]. apply IH'; [exact Hs|]. destruct Hg as [_ Hg]. exact Hg.
+    + apply cc_neglook; [exact tc_nonneg|]. apply IH'; [exact Hs|]. destruct Hg as [_ Hg]. exact Hg.
+    + apply cc_atomic; [exact tc_nonneg|]. apply IH'; [exact Hs|]. destruct Hg as [_ Hg]. exact Hg.
 Qed.
 
 Theorem compile_correct_partial : forall fuel t s res,
